@@ -47,6 +47,8 @@ import YarlProofs.C02More
 
   NOT covered (stays in GAPS 3): `build(authority=…)` (its user / password are QUOTER-quoted like `build(user=…)`; stated
   only for the `user=` / `password=` arguments); `encoded=True` calls (nothing is encoded there).
+  (Later: user / password of `build(authority=…)` for the supported ASCII host kinds are now in C02HeadlineMore3.lean,
+  `C02_headline_build_authority_user_password`; see GAPS 3 of C02Headline.lean.)
 -/
 set_option linter.unusedVariables false
 namespace Yarl
